@@ -1,5 +1,6 @@
 import PyGam.Proofs.BSplineRows
 import Mathlib.Data.Rat.Floor
+import PyGam.Gen.Decisions
 /-!
 # C03 — the spline basis is the Cox–de Boor B-spline basis with linear / periodic continuation
 
@@ -230,5 +231,22 @@ example : ∀ x : ℚ, HasFract.fract x = Int.fract x := by
 /-! ### non-vacuity: concrete instances meet the hypotheses -/
 example : (BasisCfg.mk 5 2 false (0:ℚ) 1).order < (BasisCfg.mk 5 2 false (0:ℚ) 1).nSplines := by decide
 example : basisRow (1/1000000000 : ℚ) ⟨5, 2, false, 0, 1⟩ (1/3) 1 = 1/2 := by decide +kernel
+
+/-! ### tie to the source by translation of the decision logic (`gen_decision_*`)
+
+`Gen/Decisions.lean` is regenerated on every run from the abstract syntax tree of `pygam/utils.py`: `Gen.gen_edge_knots` is
+`gen_edge_knots(data, dtype)` with `np.min(data)`, `np.max(data)` as parameters and `np.r_[a, b]` as the pair (the
+`ValueError` guard on `dtype` and the constant-feature warning are not translated). -/
+section gen_decisions
+set_option linter.unusedSectionVars false
+
+/-- `gen_edge_knots` is the model's `edgeKnots` with `half = 1/2`: categorical ↦ `(min − ½, max + ½)`, numerical ↦
+`(min, max)`.  The source's `0.5` is translated as `5/10`; over a field of characteristic 0 that is `1/2` -/
+theorem gen_decision_edge_knots (cat : Bool) (dmin dmax : α) :
+    Gen.gen_edge_knots dmin dmax (if cat then "categorical" else "numerical") = edgeKnots cat dmin dmax (1 / 2) := by
+  have h : (natTo 5 / natTo 10 : α) = 1 / 2 := by simp [natTo]; norm_num
+  cases cat <;> simp [Gen.gen_edge_knots, edgeKnots, h]
+
+end gen_decisions
 
 end PyGam.C03
